@@ -916,6 +916,96 @@ func (c *Ctx) chainRules(r *Report, prefix string) {
 		}
 	}
 	r.Check(okD, rule, "decode: body = b[4:length], advance by length", c.Pos(dec.Pos()), "length = slot(2,2) of the current generic header on both uses", detail)
+	// every element of the chain is decoded and kept, except an unsupported one whose critical bit is clear: a way
+	// round the loop that does not append to the container lies behind a test of bit 7 of octet 1 (a payload
+	// with an empty body - a Nonce or Vendor ID without data - is a payload like any other)
+	x := newBVCtx(c, f)
+	isCriticalTest := func(cond ssa.Value) bool {
+		bo, ok := cond.(*ssa.BinOp)
+		if !ok || (bo.Op != token.EQL && bo.Op != token.NEQ) {
+			return false
+		}
+		for _, v := range []ssa.Value{bo.X, bo.Y} {
+			if _, isK := v.(*ssa.Const); isK {
+				continue
+			}
+			if _, isInt := typeBits(v.Type()); !isInt {
+				continue
+			}
+			runs, ones, tops := runsOf(x.Eval(v))
+			if len(runs) == 1 && len(ones) == 0 && len(tops) == 0 && runs[0].N == 1 && runs[0].SrcLo == 7 {
+				l := x.leaves[runs[0].Leaf]
+				if l.Kind == "wire" && l.Octets == 1 && l.Off.isConst() && l.Off.C == 1 {
+					return true
+				}
+			}
+		}
+		return false
+	}
+	for _, li := range naturalLoops(dec) {
+		isWalker := false
+		for _, ins := range li.header.Instrs {
+			if p, ok := ins.(*ssa.Phi); ok && (ssa.Value(p) == cursorVal || p == offPhi) {
+				isWalker = true
+			}
+		}
+		if !isWalker {
+			continue
+		}
+		// blocks that append to the container
+		var keeps []*ssa.BasicBlock
+		for _, b := range sortedBlocks(li.body) {
+			for _, ins := range b.Instrs {
+				if st, ok := ins.(*ssa.Store); ok && paramIndex(dec, st.Addr) == 0 {
+					if ap := isAppendCall(st.Val); ap != nil {
+						keeps = append(keeps, b)
+					}
+				}
+			}
+		}
+		// barriers: a block that keeps the payload, a block that ends in the test of the critical bit. A way round
+		// the loop must cross one of them (paths, not back edges: a loop with a post statement has one back edge
+		// for all its ways round)
+		barrier := map[*ssa.BasicBlock]bool{}
+		for _, k := range keeps {
+			barrier[k] = true
+		}
+		nCrit := 0
+		for _, bb := range sortedBlocks(li.body) {
+			if iff, ok := bb.Instrs[len(bb.Instrs)-1].(*ssa.If); ok && isCriticalTest(iff.Cond) {
+				barrier[bb] = true
+				nCrit++
+			}
+		}
+		isBack := map[*ssa.BasicBlock]bool{}
+		for _, p := range li.backs {
+			isBack[p] = true
+		}
+		seen := map[*ssa.BasicBlock]bool{}
+		var bad *ssa.BasicBlock
+		var walk func(bb *ssa.BasicBlock)
+		walk = func(bb *ssa.BasicBlock) {
+			if seen[bb] || !li.body[bb] || bb == li.header || barrier[bb] || bad != nil {
+				return
+			}
+			seen[bb] = true
+			if isBack[bb] {
+				bad = bb
+				return
+			}
+			for _, sc := range bb.Succs {
+				walk(sc)
+			}
+		}
+		for _, sc := range li.header.Succs {
+			walk(sc)
+		}
+		if bad == nil {
+			r.ok(rule, "decode: every way round the loop keeps the payload or tests the critical bit", c.Pos(dec.Pos()), fmt.Sprintf("%d block(s) append to the container, %d test(s) of bit 7 of octet 1; no way round the loop avoids them", len(keeps), nCrit), true)
+		} else {
+			r.bad(rule, "decode: every way round the loop keeps the payload or tests the critical bit", c.InstrPos(bad.Instrs[len(bad.Instrs)-1]), "a payload is skipped without being decoded on a path that does not test the critical bit: an element of the chain is lost")
+		}
+	}
 }
 
 // stripMarkers removes the #more/#last literals (they qualify constants, not field slots).
